@@ -12,7 +12,7 @@ from ..core import EventLog, Result, SimFault, SimBudget, HarnessError, choice, 
 from ..families import (sample_config, make_data, make_affinity, build_model, build_params, get_class, FAMILIES,
                         GRADIENT_FAMILIES, config_signature, uses_precomputed, KERNELS)
 from ..seams import World, ModelHarness
-from .common import sample_constraints, decorate, exc_site, is_harness_frame, quiet
+from .common import sample_constraints, decorate, exc_site, is_harness_frame, quiet, sample_crash, crash_context
 
 PROPERTY = "C12"
 KEY_EVENT = "STEP"
@@ -152,8 +152,7 @@ def generate(rng):
             op["args"] = {"alpha_multiplier": choice(rng, [2.0, 5.0]), "min_features": rng.randint(1, cfg["d"]),
                           "max_patience": rng.randint(1, 2), "restore_best_weights": rng.random() < 0.6}
         if k in ("crash_fit", "crash_path"):
-            seam = weighted(rng, [("opt", 3), ("gemini", 1.5), ("kernel", 1.0)])
-            op["crash"] = {"seam": seam, "at": rng.randint(1, 6)}
+            op["crash"] = sample_crash(rng, k == "crash_path", [("opt", 3), ("gemini", 1.5), ("kernel", 1.0), ("line", 3)])
         if k == "set_params":
             op["change"] = sample_param_change(rng, cfg)
         if k == "badparam_fit":
@@ -482,12 +481,13 @@ def execute(record):
                                 if not set_kernel_fault(model, c["at"]):
                                     world.opt_raise_at = c["at"]
                         args = op.get("args", {})
-                        if base_kind == "path":
-                            ret = model.path(X, A, **args)
-                        elif base_kind == "fit_predict":
-                            ret = model.fit_predict(X, A)
-                        else:
-                            model.fit(X, A)
+                        with crash_context(op, log, res):
+                            if base_kind == "path":
+                                ret = model.path(X, A, **args)
+                            elif base_kind == "fit_predict":
+                                ret = model.fit_predict(X, A)
+                            else:
+                                model.fit(X, A)
                     elif kind in ("predict", "predict_proba", "score"):
                         # read-only calls: the same call twice gives the same answer and leaves the fitted state untouched
                         before = fitted_state(model)
